@@ -172,6 +172,18 @@ def check_pair(ctx, stack, t1, t2, rng):
                     if how == 'close':
                         g.close()
                         break
+                    if how == 'drop':
+                        break
+                    if how == 'throw':
+                        try:
+                            g.throw(KeyError('consumer'))
+                        except KeyError:
+                            pass
+                        except StopIteration:
+                            pass
+                        except AttributeError:
+                            pass          # YPSuccess objects are plain iterators without throw(): nothing to unwind
+                        break
                 if yields > 3:
                     break
             del g
@@ -181,7 +193,7 @@ def check_pair(ctx, stack, t1, t2, rng):
             for g in reversed(held):
                 g.close()
 
-    how = 'close' if rng.random() < 0.3 else 'exhaust'
+    how = rng.choice(['exhaust', 'exhaust', 'exhaust', 'close', 'close', 'drop', 'throw'])
     st, r = real_run(t1, t2, how)
     if st != 'ok':
         return ({'kind': 'harness:' + st, 'detail': r}, {})
@@ -210,8 +222,9 @@ def check_pair(ctx, stack, t1, t2, rng):
         c['symmetry_checked'] = 1
     if stack:
         c['with_prior_stack'] = 1
-    if how == 'close':
+    if how != 'exhaust':
         c['closed_at_yield'] = 1
+        c['ended_by_' + how] = 1
     return None, c
 
 
